@@ -10,6 +10,7 @@ RULE = ("live runs of all ten optimizer classes over iters in {1,2,3,5,7} x opti
         "the objective wrapper counts the individuals it really receives; expected stop generation recomputed in Python "
         "from the per-generation best values; every trace replayed through the Coq loop model. distinct = configuration.")
 THEORIES, TRUSTED, ASSUMPTIONS = _loop.THEORIES, _loop.TRUSTED, _loop.ASSUMPTIONS
+gen = _loop.gen
 
 
 def expected_generations(cfg, best_per_gen):
